@@ -257,6 +257,19 @@ impl Parameter {
                 return false;
             }
         }
+        // The braces are only trimmed if the whole argument is a single group;
+        // i.e., if the opening brace is closed by the last token and not before.
+        let mut scope_depth = 0;
+        for token in &list[..list.len() - 1] {
+            match token.value() {
+                token::Value::BeginGroup(_) => scope_depth += 1,
+                token::Value::EndGroup(_) => scope_depth -= 1,
+                _ => (),
+            }
+            if scope_depth == 0 {
+                return false;
+            }
+        }
         true
     }
 
